@@ -7,7 +7,7 @@ use bump_scope::alloc::{AllocError, Allocator};
 use bump_scope::settings::{Bool, BumpSettings, MinimumAlignment, SupportedMinimumAlignment};
 use bump_scope::stats::AnyStats;
 use bump_scope::traits::{BumpAllocator, BumpAllocatorCore, BumpAllocatorCoreScope, BumpAllocatorScope, BumpAllocatorTyped, BumpAllocatorTypedScope, MutBumpAllocatorTypedScope};
-use bump_scope::{BaseAllocator, Bump, BumpScope, BumpScopeGuard, Checkpoint, MutBumpVec, MutBumpVecRev, WithoutDealloc, WithoutShrink};
+use bump_scope::{BaseAllocator, Bump, BumpScope, BumpScopeGuard, Checkpoint, MutBumpString, MutBumpVec, MutBumpVecRev, WithoutDealloc, WithoutShrink};
 use std::alloc::Layout;
 use std::ptr::NonNull;
 
@@ -626,6 +626,10 @@ where
             }
             return Ok(Box::new(d));
         }
+        if via == "string" {
+            let sv = if c0 == 0 { MutBumpString::new_in(self) } else { MutBumpString::try_with_capacity_in(c0, self).map_err(|_| ())? };
+            return Ok(Box::new(sv));
+        }
         macro_rules! mk {
             ($t:ty) => {
                 if rev {
@@ -708,6 +712,38 @@ where
         let len = b.len();
         let ptr = b.into_raw();
         (v(ptr.cast::<u8>()), len, slice_bytes(ptr.cast::<T>().as_ptr(), len))
+    }
+}
+
+impl<'s, 'a, A, const MA: usize, const UP: bool, const GA: bool, const DE: bool, const SH: bool, const MCS: usize> PrepOps
+    for MutBumpString<&'s mut BumpScope<'a, A, BumpSettings<MA, UP, GA, true, DE, SH, MCS>>>
+where
+    A: Flavour + BaseAllocator<Bool<GA>>,
+    MinimumAlignment<MA>: SupportedMinimumAlignment,
+{
+    fn push(&mut self, tag: u8) -> Result<(), ()> {
+        self.try_push((tag & 0x7f).max(1) as char).map_err(|_| ())
+    }
+    fn reserve(&mut self, additional: usize) -> Result<(), ()> {
+        self.try_reserve(additional).map_err(|_| ())
+    }
+    fn len(&self) -> usize {
+        MutBumpString::len(self)
+    }
+    fn cap(&self) -> usize {
+        self.capacity()
+    }
+    fn snapshot(&self) -> Snap {
+        let st = self.allocator_stats();
+        let (chunks, cur, rev1, stats) = typed_snap!(st);
+        let (any_chunks, any_cur, rev2, any) = chunk_snaps_any(st.into());
+        Snap { chunks, cur, stats, any, any_chunks, any_cur, rev_ok: rev1 && rev2, claimed: false }
+    }
+    fn commit(self: Box<Self>) -> (usize, usize, Vec<u8>) {
+        let b = (*self).into_boxed_str();
+        let len = b.len();
+        let ptr = b.into_raw();
+        (v(ptr.cast::<u8>()), len, slice_bytes(ptr.cast::<u8>().as_ptr(), len))
     }
 }
 
